@@ -18,6 +18,7 @@ EXPLANATION = (
     'callbacks (set-based, idempotent) and opens the socket; stop() empties the task list so start() works again; messages still queued at close() are '
     'discarded.'
     ' Rounds 7-8: R2 also: the background tasks are cancelled before close() first awaits; R3 also: state = CLOSED before every await of shutdown(), and the cancel-and-await loops absorb CancelledError per task inside the loop; R5 also: nothing is (re-)queued once the socket is not open (D14); R10 subscriber callbacks end with the cancelled notifier (D13, C07.R7 re-used).'
+    ' Rounds 9-10: R2 also: the retry of _connect is never scheduled from a finally block or a cancellation handler; R3 also: `initialised` is cleared before the first await of shutdown() and every stored task attribute has one creation site.'
 )
 ASSUMPTIONS = ["Task.cancel() delivers CancelledError at the task's current await", "asyncio.current_task() identifies the caller so close() does not cancel itself"]
 FLOORS = {"C15.R1": 3, "C15.R2": 4, "C15.R3": 14, "C15.R4": 1, "C15.R5": 9, "C15.R6": 1, "C15.R7": 1, "C15.R8": 1, "C15.R9": 1, "C15.R10": 1, "C15.R11": 1}
